@@ -85,7 +85,7 @@ theorem find_of_nodup_keys (l : List (Key × Nat)) (hn : (l.map (·.1)).Nodup) (
       exact ih hn.2 hx'
 
 theorem handle_keeps (d : Disp) (hn : d.keys.Nodup) (ev : Event) (x : Key × Nat) (hx : x ∈ d.streams) :
-    x ∈ (d.handle ev).1.streams ∨ ev = .control (.shutdown x.1) ∨
+    x ∈ (d.handle ev).1.streams ∨ ev = .control (.shutdown x.1 none) ∨ ev = .control (.shutdown x.1 (some x.2)) ∨
       (∃ bytes h p, ev = .datagram x.1.addr bytes ∧ Message.deserialize bytes = some (h, p) ∧ h.connId = x.1.id ∧
         x.2 ∈ d.deadStreams) := by
   cases ev with
@@ -97,13 +97,32 @@ theorem handle_keeps (d : Disp) (hn : d.keys.Nodup) (ev : Event) (x : Key × Nat
     · exact hx
     · exact hx
   | control c =>
-    by_cases hc : ∃ k, c = .shutdown k
-    · obtain ⟨k, rfl⟩ := hc
+    by_cases hc : ∃ k o, c = .shutdown k o
+    · obtain ⟨k, o, rfl⟩ := hc
       by_cases hk : x.1 = k
-      · right; left; rw [hk]
-      · left; exact removeKey_keeps_others d k x hx hk
+      · subst hk
+        cases o with
+        | none => right; left; rfl
+        | some inst =>
+          by_cases hi : inst = x.2
+          · subst hi; right; right; left; rfl
+          · -- another stream's Shutdown for this key: ignored
+            left
+            have hf := find_of_nodup_keys d.streams hn x hx
+            have : d.instOf x.1 ≠ some inst := by
+              simp only [instOf, hf, Option.map_some]
+              intro h; exact hi (by simpa using h.symm)
+            simp only [handle, onControl, this, if_false]
+            exact hx
+      · left
+        simp only [handle, onControl]
+        split
+        · exact removeKey_keeps_others d k x hx hk
+        · split
+          · exact removeKey_keeps_others d k x hx hk
+          · exact hx
     · left
-      exact onControl_keeps d c (fun k hk => hc ⟨k, hk⟩) x hx
+      exact onControl_keeps d c (fun k o hk => hc ⟨k, o, hk⟩) x hx
   | datagram addr bytes =>
     simp only [handle]
     split
@@ -116,7 +135,7 @@ theorem handle_keeps (d : Disp) (hn : d.keys.Nodup) (ev : Event) (x : Key × Nat
         split
         · rename_i hdead
           by_cases hxk : x.1 = { addr := addr, id := h.connId }
-          · right; right
+          · right; right; right
             refine ⟨bytes, h, p, by rw [hxk], hdes, by rw [hxk], ?_⟩
             -- the instance registered under that key is `x.2`
             have hf := find_of_nodup_keys d.streams hn x hx
@@ -134,10 +153,12 @@ theorem handle_keeps (d : Disp) (hn : d.keys.Nodup) (ev : Event) (x : Key × Nat
 
 /-- **Attempts beyond the limit, and everything else the dispatcher does, never evict an existing
 connection**: an entry (key ↦ connection instance) leaves the table in a loop iteration only because that
-iteration processed the `Shutdown` request for its key (sent when a connection's task ends), or because a
-datagram for exactly that key found the connection's task gone. -/
+iteration processed the `Shutdown` request of THAT SAME instance (sent when the connection's task ends; or an
+untagged one, which only the verification hook sends), or because a datagram for exactly that key found the
+connection's task gone. In particular the late `Shutdown` of an earlier connection that used the same key is
+ignored (D20). -/
 theorem no_eviction {m : Nat} (d : Disp) (hi : TInv m d) (ev : Event) (x : Key × Nat) (hx : x ∈ d.streams) :
-    x ∈ (d.runOnce ev).1.streams ∨ ev = .control (.shutdown x.1) ∨
+    x ∈ (d.runOnce ev).1.streams ∨ ev = .control (.shutdown x.1 none) ∨ ev = .control (.shutdown x.1 (some x.2)) ∨
       (∃ bytes h p, ev = .datagram x.1.addr bytes ∧ Message.deserialize bytes = some (h, p) ∧ h.connId = x.1.id ∧
         x.2 ∈ d.cleanupAcceptQueue.1.deadStreams) := by
   unfold runOnce
@@ -191,6 +212,12 @@ theorem full_table_untouched_by_handshakes (d : Disp) (addr : Nat) (h : Header) 
       split
       · exact hd'
       · split <;> exact hd'
+
+/-- **The late Shutdown of an earlier connection does not touch its successor** (D20): a `Shutdown` tagged with
+an instance that is not the one registered under the key changes nothing. -/
+theorem stale_shutdown_ignored (d : Disp) (k : Key) (old : Nat) (h : d.instOf k ≠ some old) :
+    d.onControl (.shutdown k (some old)) = (d, []) := by
+  simp [onControl, h]
 
 /-! ### The connection id chosen for an outgoing connect is fresh -/
 
